@@ -17,8 +17,12 @@ JudgeKey == LET K == KindsOf(Ev.raw)
                                            kinds |-> {Layouts[k].name : k \in K}])>>)
 JudgePair == PrintT(<<"PAIR", ToJson([i |-> l, ok |-> DistinctParamsDistinctKeys(Ev), faithful |-> Faithful(Ev),
                                       confined |-> Confined(Ev.raw1) /\ Confined(Ev.raw2)])>>)
+(* one execution's keys do not depend on what other executions do at the same time: seq / conc are the raw keys one
+   (goroutine, iteration) wrote when it ran alone and when eight ran at once on private stores *)
+Deterministic(e) == e.seq = e.conc
+JudgeConc == PrintT(<<"CONC", ToJson([i |-> l, ok |-> Deterministic(Ev)])>>)
 TraceNext == /\ l <= Len(TraceLog)
-             /\ IF Ev.ev = "pair" THEN JudgePair ELSE JudgeKey
+             /\ IF Ev.ev = "pair" THEN JudgePair ELSE IF Ev.ev = "conc" THEN JudgeConc ELSE JudgeKey
              /\ l' = l + 1 /\ UNCHANGED <<pair, done>>
 TraceSpec == TraceInit /\ [][TraceNext]_<<pair, done, l>>
 HighWater == TLCSet(1, IF TLCGet(1) < l THEN l ELSE TLCGet(1))
